@@ -54,6 +54,9 @@ class Gen(object):
         self.table = MAP_W if self.mapping else SET_W
         self.phase = "mixed"
         self.p_bad = 0.0
+        # byValue(min) among the calls (a READ: whatever it answers -- C09
+        # says why the answer is not compared -- nothing may change)
+        self.p_byvalue = 0.0
 
     def present(self):
         ks = self.model.skeys()
@@ -141,6 +144,10 @@ class Gen(object):
         rng = self.rng
         if self.p_bad and rng.random() < self.p_bad:
             op = self.bad_write()
+            self.model.apply(op)
+            return op
+        if self.p_byvalue and self.mapping and rng.random() < self.p_byvalue:
+            op = ["byValue", self.val()]
             self.model.apply(op)
             return op
         while True:
